@@ -101,7 +101,7 @@ def scn_cos(ctx):
 MUST_REACH = {"*": ["swept", "submit-refused"]}
 ASSUMPTIONS = ["one thread calls shutdown(); delegate is a recording executor whose futures are pending/running/done as scripted"]
 BOUNDS_TEXT = {
-    "quick": "3 earlier futures (pending, running, done), 1-2 racing submitters x1 submit, optional re-submitting done-callback, P<=2",
+    "quick": "3 earlier futures (pending, running, done), 1-2 racing submitters x1 submit, optional re-submitting done-callback, P<=2, scheduling points also right after lock releases",
     "thorough": "2 submitters x2 submits, P<=3, gran=1 (stdlib futures preemptible)",
 }
 
@@ -109,13 +109,13 @@ BOUNDS_TEXT = {
 def plan(tier, seed):
     if tier == "quick":
         return [
-            dict(scenario="cos", params=dict(submitters=1), bounds=dict(P=2)),
-            dict(scenario="cos", params=dict(submitters=2), bounds=dict(P=1)),
-            dict(scenario="cos", params=dict(submitters=1, resubmit=True), bounds=dict(P=1)),
+            dict(scenario="cos", params=dict(submitters=1), bounds=dict(P=2, post_release=True)),
+            dict(scenario="cos", params=dict(submitters=2), bounds=dict(P=1, post_release=True)),
+            dict(scenario="cos", params=dict(submitters=1, resubmit=True), bounds=dict(P=2, post_release=True)),
         ]
     return [
-        dict(scenario="cos", params=dict(submitters=2, per_thread=2), bounds=dict(P=2)),
-        dict(scenario="cos", params=dict(submitters=1, per_thread=2), bounds=dict(P=3)),
-        dict(scenario="cos", params=dict(submitters=1), bounds=dict(P=3, gran=1)),
-        dict(scenario="cos", params=dict(submitters=2, resubmit=True), bounds=dict(P=2)),
+        dict(scenario="cos", params=dict(submitters=2, per_thread=2), bounds=dict(P=2, post_release=True)),
+        dict(scenario="cos", params=dict(submitters=1, per_thread=2), bounds=dict(P=3, post_release=True)),
+        dict(scenario="cos", params=dict(submitters=1), bounds=dict(P=3, gran=1, post_release=True)),
+        dict(scenario="cos", params=dict(submitters=2, resubmit=True), bounds=dict(P=2, post_release=True)),
     ]
